@@ -17,7 +17,7 @@ pub const SHIFTS: [f64; 12] = [-24.0, -12.0, -1.0, -0.5, -0.009, 0.0, 0.00001, 0
 
 pub fn run(tier: Tier) -> i32 {
     let rep = Report::new("C15", tier, "model_checking");
-    rep.set_rule("SCOPE: shifts {-24,-12,-1,-0.5,-0.009,0,1e-5,0.004,0.5,1,12,24} half tones x voices (V0, P1..P3 with GV on; two-voice sets V0+Pk with weights (1.5,-.5), (.5,.5), (-.25,1.25); generated 2-/3-stream voices with GV off, also with the streams keyed MGC/F0/BAP) x (short utterances + corpus windows of 8 + windows around the lowest/highest-pitched voiced states) x (default + every single further deviation on the short set); trajectories through hook 1; oracle: same frame count and voiced pattern, lf0 shift = h ln2/12 (1e-9) on every voiced frame when no voiced state's mean reaches the 20 Hz..20 kHz clamp, spectrum and low-pass trajectories bit-identical, h=0 bit-identical to never calling the setter; distinct = (voice, other deviation, utterance, h); non-trivial = h != 0 and at least one voiced frame");
+    rep.set_rule("SCOPE: shifts {-24,-12,-1,-0.5,-0.009,0,1e-5,0.004,0.5,1,12,24} half tones x voices (V0, P1..P3 with GV on; two-voice sets V0+Pk with weights (1.5,-.5), (.5,.5), (-.25,1.25); generated 2-/3-stream voices with GV off, also with the streams keyed MGC/F0/BAP) x (short utterances + corpus windows of 8 + windows around the lowest/highest-pitched voiced states) x (default + every single further deviation on the short set); trajectories through hook 1; oracle: same frame count and voiced pattern, lf0 shift = h ln2/12 (1e-9) on every voiced frame when no voiced state's mean reaches the 20 Hz..20 kHz clamp, spectrum and low-pass trajectories bit-identical, h=0 bit-identical to never calling the setter; a shift set before load_model equals setting it afterwards; distinct = (voice, other deviation, utterance, h); non-trivial = h != 0 and at least one voiced frame");
     rep.assume("shift lattice only; when some voiced state's shifted mean reaches the limit the expected trajectory is generated from the limited means through the public MlpgAdjust (itself checked by C05/C12)");
     let corpus = labels::corpus();
     let mut utts: Vec<Vec<String>> = vec![vec![corpus[41].clone()], corpus[40..43].to_vec()];
@@ -205,6 +205,38 @@ pub fn run(tier: Tier) -> i32 {
             *w = w.max(wr);
         }
     });
+    // a pitch shift chosen before the voices are bound (Condition::default, set_additional_half_tone, load_model,
+    // Engine::new) is the caller's setting, not the voice's: it must be in force exactly as when set after loading
+    {
+        let cfg = GenCfg { gv: false, nstate: 2, ..GenCfg::default() };
+        let voice = std::sync::Arc::new(load_voice_bytes(&cfg.bytes()).expect("generated voice"));
+        let u = vec![corpus[41].clone(), corpus[42].clone()];
+        for &h in &[3.0, -5.0] {
+            rep.eval(1);
+            let r = catch(|| -> Result<(Traj, f64, Traj), String> {
+                let vs = jbonsai::model::VoiceSet::new(vec![voice.clone()]).map_err(|e| e.to_string())?;
+                let mut c = jbonsai::Condition::default();
+                c.set_additional_half_tone(h);
+                c.load_model(&vs).map_err(|e| e.to_string())?;
+                let mut before = jbonsai::Engine::new(vs.clone(), c);
+                let mut after = engine_from_voices(vec![voice.clone()]).map_err(|e| e.to_string())?;
+                after.condition.set_additional_half_tone(h);
+                // a low F0 threshold on both, so that there are voiced frames to shift
+                before.condition.set_msd_threshold(1, 0.05);
+                after.condition.set_msd_threshold(1, 0.05);
+                Ok((trajectories(&before, &u)?, before.condition.get_additional_half_tone(), trajectories(&after, &u)?))
+            });
+            rep.cmp(2);
+            match r {
+                Ok(Ok((tb, gh, ta))) => {
+                    if !bits_eq2(&tb.1, &ta.1) || gh != h {
+                        rep.violation("set-before-load", format!("set_additional_half_tone({}) before load_model: the getter returns {} and the log-F0 trajectory {} the one obtained by setting it after loading", h, gh, if bits_eq2(&tb.1, &ta.1) { "equals" } else { "differs from" }), json!({"voice": cfg.describe(), "half_tone": h, "labels": u}));
+                    }
+                }
+                other => rep.violation("set-before-load", format!("set_additional_half_tone before load_model fails: {:?}", other.map(|_| ())), json!({"voice": cfg.describe(), "half_tone": h})),
+            }
+        }
+    }
     rep.nontrivial.store(nontriv.load(Ordering::Relaxed), Ordering::Relaxed);
     rep.note("bounds", json!({"shifts": SHIFTS, "voices": voices.iter().map(|v| v.0.clone()).collect::<Vec<_>>(), "utterances": utts.len(), "corpus_stride": stride, "jobs": jobs.len(), "worst_shift_error": *worst.lock().unwrap(), "cases_reaching_the_clamp": clamped_cases.load(Ordering::Relaxed)}));
     rep.sample(json!({"voice": "V0", "other_condition": [], "labels": utts[0], "half_tone": -24.0}));
